@@ -834,3 +834,339 @@ func ruleChildUpdateHandled(c *Ctx, rule string) {
 	c.CallSites(n)
 	c.Floor(rule, 1)
 }
+
+// lenOf: v is len(x) (possibly converted); x is returned.
+func lenOf(v ssa.Value) ssa.Value {
+	for i := 0; i < 3; i++ {
+		if cv, ok := v.(*ssa.Convert); ok {
+			v = cv.X
+		}
+	}
+	k, ok := v.(*ssa.Call)
+	if !ok {
+		return nil
+	}
+	if bi, isB := k.Call.Value.(*ssa.Builtin); isB && bi.Name() == "len" && len(k.Call.Args) == 1 {
+		return k.Call.Args[0]
+	}
+	return nil
+}
+
+func intConst(v ssa.Value) (int64, bool) {
+	k, ok := v.(*ssa.Const)
+	if !ok || k.Value == nil || k.Value.Kind() != constant.Int {
+		return 0, false
+	}
+	return constant.Int64Val(k.Value)
+}
+
+// lenAtLeast: the facts holding at b establish len(x) >= need.
+func lenAtLeast(fi *FactInfo, b *ssa.BasicBlock, x ssa.Value, need int64) bool {
+	return fi.HoldsWhere(b, func(f Fact) bool {
+		bo, isB := f.V.(*ssa.BinOp)
+		if f.Kind != "true" || !isB {
+			return false
+		}
+		op, l, r := bo.Op, bo.X, bo.Y
+		if _, isK := intConst(l); isK {
+			// mirror: K op len  ==  len op' K
+			l, r = r, l
+			switch op {
+			case token.LSS:
+				op = token.GTR
+			case token.LEQ:
+				op = token.GEQ
+			case token.GTR:
+				op = token.LSS
+			case token.GEQ:
+				op = token.LEQ
+			}
+		}
+		lx := lenOf(l)
+		k, isK := intConst(r)
+		if lx == nil || !isK || (lx != x && fi.canon(lx) != fi.canon(x)) {
+			return false
+		}
+		switch {
+		case op == token.GEQ && f.Pol, op == token.LSS && !f.Pol, op == token.EQL && f.Pol, op == token.NEQ && !f.Pol:
+			return k >= need
+		case op == token.GTR && f.Pol, op == token.LEQ && !f.Pol:
+			return k+1 >= need
+		}
+		return false
+	})
+}
+
+// ruleStringBounds: a string cut or indexed at a constant position is known to be that long.  The texts the
+// parse path handles are whatever the grammar lets through (a date-time with a one-digit year is a sentence): a
+// fixed offset into such a text without a length test is an out-of-range panic for some input.
+func ruleStringBounds(c *Ctx, rule string, pkgs ...string) {
+	p := c.P
+	n := 0
+	for _, fn := range c.prodFuncs(pkgs...) {
+		if p.isGenerated(fn.Pos()) {
+			continue
+		}
+		var fi *FactInfo
+		for _, b := range fn.Blocks {
+			for _, in := range b.Instrs {
+				var x ssa.Value
+				var need int64
+				what := ""
+				switch s := in.(type) {
+				case *ssa.Slice:
+					if bt, isB := s.X.Type().Underlying().(*types.Basic); !isB || bt.Info()&types.IsString == 0 {
+						continue
+					}
+					for _, bound := range []ssa.Value{s.Low, s.High} {
+						if bound == nil {
+							continue
+						}
+						if k, isK := intConst(bound); isK && k > need {
+							need = k
+						}
+					}
+					x, what = s.X, "cut"
+				case *ssa.Lookup:
+					if bt, isB := s.X.Type().Underlying().(*types.Basic); !isB || bt.Info()&types.IsString == 0 {
+						continue
+					}
+					k, isK := intConst(s.Index)
+					if !isK {
+						continue
+					}
+					x, need, what = s.X, k+1, "indexed"
+				default:
+					continue
+				}
+				if need <= 0 {
+					continue
+				}
+				if k, isK := x.(*ssa.Const); isK && k.Value != nil && k.Value.Kind() == constant.String {
+					if int64(len(constant.StringVal(k.Value))) >= need {
+						continue
+					}
+				}
+				if fi == nil {
+					fi = factsOf(fn)
+				}
+				n++
+				c.Analysed(FnName(fn))
+				ok := lenAtLeast(fi, b, x, need)
+				c.Check(ok, rule, FnName(fn)+": string "+what+" at a constant position", p.Pos(in.Pos()), "the string is known to be at least that long here ("+fi.Describe(b)+")",
+					"a string is "+what+" at a fixed position needing at least "+itoa64(need)+" bytes, and nothing on the way here establishes that length: for a shorter text (the grammar allows it) this is an out-of-range panic instead of an error")
+			}
+		}
+	}
+	c.CallSites(n)
+}
+
+func itoa64(n int64) string { return constant.MakeInt64(n).ExactString() }
+
+// ruleMakeNonNeg: a slice made with a length or capacity computed by a subtraction needs the difference to be
+// known non-negative: make panics on a negative size (a skip beyond the number of rows kept is the usual way to
+// get one).
+func ruleMakeNonNeg(c *Ctx, rule string, pkgs ...string) {
+	p := c.P
+	n := 0
+	for _, fn := range c.prodFuncs(pkgs...) {
+		if p.isGenerated(fn.Pos()) {
+			continue
+		}
+		var fi *FactInfo
+		for _, b := range fn.Blocks {
+			for _, in := range b.Instrs {
+				mk, ok := in.(*ssa.MakeSlice)
+				if !ok {
+					continue
+				}
+				for _, sz := range []ssa.Value{mk.Len, mk.Cap} {
+					v := sz
+					for i := 0; i < 3; i++ {
+						if cv, isCv := v.(*ssa.Convert); isCv {
+							v = cv.X
+						}
+					}
+					sub, isSub := v.(*ssa.BinOp)
+					if !isSub || sub.Op != token.SUB {
+						continue
+					}
+					if _, isK := intConst(sub.Y); isK {
+						if lenOf(sub.X) == nil {
+							continue
+						}
+					}
+					if fi == nil {
+						fi = factsOf(fn)
+					}
+					n++
+					c.Analysed(FnName(fn))
+					okSz := fi.HoldsWhere(b, func(f Fact) bool {
+						bo, isB := f.V.(*ssa.BinOp)
+						if f.Kind != "true" || !isB {
+							return false
+						}
+						same := func(a, b ssa.Value) bool { return a == b || fi.canon(a) == fi.canon(b) || sameExprPure(a, b, 0) }
+						switch {
+						case same(bo.X, sub.X) && same(bo.Y, sub.Y):
+							return (bo.Op == token.GEQ && f.Pol) || (bo.Op == token.GTR && f.Pol) || (bo.Op == token.LSS && !f.Pol) || (bo.Op == token.EQL && f.Pol)
+						case same(bo.X, sub.Y) && same(bo.Y, sub.X):
+							return (bo.Op == token.LEQ && f.Pol) || (bo.Op == token.LSS && f.Pol) || (bo.Op == token.GTR && !f.Pol) || (bo.Op == token.EQL && f.Pol)
+						case same(bo.X, v):
+							if k, isK := intConst(bo.Y); isK {
+								return (bo.Op == token.GEQ && f.Pol && k >= 0) || (bo.Op == token.GTR && f.Pol && k >= -1) || (bo.Op == token.LSS && !f.Pol && k >= 0)
+							}
+						}
+						return false
+					})
+					c.Check(okSz, rule, FnName(fn)+": make with a subtracted size", p.Pos(mk.Pos()), "the difference is known non-negative here ("+fi.Describe(b)+")",
+						"a slice is made with the size "+describeValue(sub.X)+" - "+describeValue(sub.Y)+" and nothing on the way here establishes that the difference is not negative: make panics on a negative size (e.g. a skip beyond the rows that were kept)")
+				}
+			}
+		}
+	}
+	c.CallSites(n)
+}
+
+// sameExprPure: the two values are the same pure expression: field loads of the same field, len/Len() of the
+// same thing, conversions of the same thing.
+func sameExprPure(a, b ssa.Value, d int) bool {
+	if a == b {
+		return true
+	}
+	if d > 4 || a == nil || b == nil {
+		return false
+	}
+	switch x := a.(type) {
+	case *ssa.Convert:
+		y, ok := b.(*ssa.Convert)
+		return ok && types.Identical(x.Type(), y.Type()) && sameExprPure(x.X, y.X, d+1)
+	case *ssa.UnOp:
+		y, ok := b.(*ssa.UnOp)
+		if !ok || x.Op != y.Op || x.Op != token.MUL {
+			return false
+		}
+		fx, bx := fieldOfAddr(x.X)
+		fy, by := fieldOfAddr(y.X)
+		return fx != nil && fy != nil && sameVar(fx, fy) && sameExprPure(bx, by, d+1)
+	case *ssa.FieldAddr:
+		y, ok := b.(*ssa.FieldAddr)
+		return ok && x.Field == y.Field && sameExprPure(x.X, y.X, d+1)
+	case *ssa.Call:
+		y, ok := b.(*ssa.Call)
+		if !ok || len(x.Call.Args) != len(y.Call.Args) {
+			return false
+		}
+		if bx, isB := x.Call.Value.(*ssa.Builtin); isB {
+			by, isBy := y.Call.Value.(*ssa.Builtin)
+			if !isBy || bx.Name() != by.Name() || bx.Name() != "len" {
+				return false
+			}
+		} else {
+			cx, _ := calleeOf(&x.Call)
+			cy, _ := calleeOf(&y.Call)
+			if cx == nil || cx != cy || cx.Name() != "Len" {
+				return false
+			}
+			if x.Call.IsInvoke() != y.Call.IsInvoke() || (x.Call.IsInvoke() && !sameExprPure(x.Call.Value, y.Call.Value, d+1)) {
+				return false
+			}
+		}
+		for i := range x.Call.Args {
+			if !sameExprPure(x.Call.Args[i], y.Call.Args[i], d+1) {
+				return false
+			}
+		}
+		return true
+	}
+	return false
+}
+
+// ruleWithDefault: a typed getter with a default (name, default) answers the default exactly where the stored
+// value is absent (the typed read answered nil), and the stored value otherwise.  Deciding "absent" by the value
+// (zero → default) makes a stored false / 0 / "" read back as the default.
+func ruleWithDefault(c *Ctx, rule string) {
+	p := c.P
+	tb := p.Named("boltz", "TypedBucket")
+	n := 0
+	for _, fn := range c.prodFuncs("boltz") {
+		if fn.Parent() != nil || fn.Signature.Recv() == nil || namedOf(fn.Signature.Recv().Type()) != tb || len(fn.Params) != 3 {
+			continue
+		}
+		sig := fn.Signature
+		if sig.Results().Len() != 1 || !types.Identical(sig.Results().At(0).Type(), sig.Params().At(1).Type()) {
+			continue
+		}
+		if bt, isB := sig.Params().At(0).Type().Underlying().(*types.Basic); !isB || bt.Kind() != types.String {
+			continue
+		}
+		def := fn.Params[2]
+		n++
+		name := FnName(fn)
+		c.Analysed(name)
+		fi := factsOf(fn)
+		// the stored value: what a pointer-typed read answered
+		isRead := func(v ssa.Value) bool {
+			_, isPtr := v.Type().Underlying().(*types.Pointer)
+			if !isPtr {
+				return false
+			}
+			switch v.(type) {
+			case *ssa.Call, *ssa.Phi, *ssa.Extract:
+				return true
+			}
+			return false
+		}
+		ok, why := true, ""
+		var decide func(v ssa.Value, b *ssa.BasicBlock, edgeFrom *ssa.BasicBlock, d int) bool
+		decide = func(v ssa.Value, b *ssa.BasicBlock, edgeFrom *ssa.BasicBlock, d int) bool {
+			if d > 4 {
+				return false
+			}
+			holds := func(pred func(Fact) bool) bool {
+				if edgeFrom != nil {
+					for f := range fi.outFacts(edgeFrom, b) {
+						if pred(f) {
+							return true
+						}
+					}
+					return false
+				}
+				return fi.HoldsWhere(b, pred)
+			}
+			switch x := v.(type) {
+			case *ssa.Parameter:
+				if x != def {
+					return false
+				}
+				// the default: only where a read is known to have answered nil
+				return holds(func(f Fact) bool { return f.Kind == "nonnil" && !f.Pol && isRead(f.V) })
+			case *ssa.UnOp:
+				if x.Op != token.MUL || !isRead(x.X) {
+					return false
+				}
+				return true // the stored value itself (a nil dereference is NILDEREF's business)
+			case *ssa.Phi:
+				for i, e := range x.Edges {
+					if !decide(e, x.Block(), x.Block().Preds[i], d+1) {
+						return false
+					}
+				}
+				return true
+			}
+			return false
+		}
+		for _, r := range returnsOf(fn) {
+			if len(r.Results) != 1 {
+				continue
+			}
+			if !decide(r.Results[0], r.Block(), nil, 0) {
+				ok = false
+				why = "the value returned at " + p.Pos(r.Pos()) + " (" + describeValue(r.Results[0]) + ") is neither the stored value nor the default on a path where the read answered nil: a stored zero value (false, 0, \"\") can read back as the default"
+			}
+		}
+		c.Check(ok, rule, name, p.Pos(fn.Pos()), "answers the stored value, and the default only where the typed read answered nil", why)
+	}
+	c.CallSites(n)
+	c.Floor(rule, 3)
+}
